@@ -90,11 +90,12 @@ def _to_triplets(
 
 def _to_len_bucket(seqs):
     ans = {}
-    for seq in seqs:
+    for index, seq in enumerate(seqs):
         _len = len(seq)
         if _len not in ans:
-            ans[_len] = []
-        ans[_len].append(seq)
+            ans[_len] = ([], [])
+        ans[_len][0].append(seq)
+        ans[_len][1].append(index)
     return ans
 
 
@@ -152,8 +153,8 @@ def kdtree(
 
     if custom_distance == "hamming":
         buckets, ans = _to_len_bucket(seqs), []
-        for bucket in buckets.values():
-            ans += _kdtree_leven(
+        for bucket, positions in buckets.values():
+            triplets = _kdtree_leven(
                 bucket,
                 max_edits,
                 max_returns,
@@ -163,6 +164,8 @@ def kdtree(
                 "triplets",
                 compression,
             )
+            # map positions within the length bucket back to positions in seqs
+            ans += [(positions[i], positions[j], dist) for i, j, dist in triplets]
         return _make_output(ans, output_type, seqs)
     return _kdtree_leven(
         seqs,
